@@ -81,7 +81,10 @@ def gen(rng, tier):
            'read_only': rng.random() < 0.5,
            'nadmin': rng.randrange(0, 3),
            'coroutine': rng.random() < 0.6,
-           'async_handlers': rng.random() < 0.4}
+           'async_handlers': rng.random() < 0.4,
+           # the server uses a message-queue client manager; a second, plain
+           # host with one client shares the channel
+           'pubsub': rng.random() < 0.25}
     attempts = [gen_payload(rng) for _ in range(rng.randrange(2, 7))]
     app = []
     npeers = rng.randrange(2, 4)
@@ -231,8 +234,23 @@ def run_twin(case, cfg, instrumented):
 def _run_twin(case, cfg, instrumented, w):
     v = V(PROP)
     rec = w.rec
+    mkw = {}
+    if cfg.get('pubsub'):
+        from sim.bus import SimBus, SimPubSubManager, AsyncSimPubSubManager
+        bus = SimBus(w, lags=(0.0,))
+        Mgr = AsyncSimPubSubManager if w.mode == 'async' \
+            else SimPubSubManager
+        mkw['manager'] = Mgr(bus, 's')
     srv = w.add_server('s', namespaces=list(NSS),
-                       async_handlers=bool(cfg.get('async_handlers')))
+                       async_handlers=bool(cfg.get('async_handlers')), **mkw)
+    if cfg.get('pubsub'):
+        other = w.add_server('h2', namespaces=list(NSS),
+                             async_handlers=False, manager=Mgr(bus, 'h2'))
+        for ns in NSS:
+            other.on('connect', w.make_handler(('h2', 'func', ns, 'connect'),
+                                               lambda *a: [('ret', None)],
+                                               coroutine=False),
+                     namespace=ns)
 
     pending_beh = {}
     sid_names = {}
@@ -336,6 +354,14 @@ def _run_twin(case, cfg, instrumented, w):
             pe.send_pkt(sio.DISCONNECT, '/admin', None, None)
         admins = admins[:cfg['nadmin']]
         w.settle()
+    if cfg.get('pubsub'):
+        # a client of the other host: it sees what goes through the queue
+        sc.open('z', server='h2')
+        for ns in NSS:
+            zs = sc.connect('z', ns)
+            if zs and zs not in sid_names:
+                sid_names[zs] = 'SID%d' % len(sid_names)
+        w.settle()
     # (3) the application history
     traces = {}
     outstanding = {}
@@ -416,8 +442,11 @@ def _run_twin(case, cfg, instrumented, w):
                 else None
             if isinstance(to, list):
                 to = sc.sid(to[1], ns) or 'nobody'
+            kwq = {}
+            if cfg.get('pubsub') and w.choices.chance('app', 1, 2, 'igq'):
+                kwq['ignore_queue'] = True     # local clients only
             w.api('s', 'emit', 'news', tag, to=to, namespace=ns,
-                  skip_sid=skip)
+                  skip_sid=skip, **kwq)
         elif k == 'emit_cb':
             _, p, ns, tag = op
             sid = sc.sid(p, ns)
@@ -444,7 +473,7 @@ def _run_twin(case, cfg, instrumented, w):
     # (2) read-only: no admin request has any effect on the application
     if instrumented and cfg['read_only'] and admins:
         before = {(p, ns): sorted(map(repr, srv.rooms(sid, ns)))
-                  for (p, ns), sid in sc.live_sids()}
+                  for (p, ns), sid in sc.live_sids() if p != 'z'}
         marks = {p: len(sc.peers[p].rx) for p in sc.peers
                  if not str(p).startswith('adm') and sc.alive(p)}
         adm = admins[0]
@@ -464,7 +493,7 @@ def _run_twin(case, cfg, instrumented, w):
                 stats['admin_commands'] += 1
         w.settle()
         after = {(p, ns): sorted(map(repr, srv.rooms(sid, ns)))
-                 for (p, ns), sid in sc.live_sids()}
+                 for (p, ns), sid in sc.live_sids() if p != 'z'}
         if before != after:
             v.add('read_only_admin_changed_rooms', '%s -> %s'
                   % (before, after))
@@ -476,7 +505,7 @@ def _run_twin(case, cfg, instrumented, w):
             if sc.peers[p].transport_closed:
                 v.add('read_only_admin_disconnected_client', p)
         for (p, ns), sid in sc.live_sids():
-            if not srv.manager.is_connected(sid, ns):
+            if p != 'z' and not srv.manager.is_connected(sid, ns):
                 v.add('read_only_admin_disconnected_client', (p, ns))
     # traces per application peer
     for p, pe in sc.peers.items():
@@ -492,7 +521,8 @@ def _run_twin(case, cfg, instrumented, w):
         traces[p] = tr
     hs = []
     for e in rec.events:
-        if e['kind'] == 'h_enter' and e['label'][2] != '/admin':
+        if e['kind'] == 'h_enter' and e['label'][2] != '/admin' and \
+                e['label'][0] != 'h2':
             hs.append(('h', e['label'][2], e['label'][3],
                        trepr(norm(list(e['args'])))))
     traces['handlers'] = hs
